@@ -365,4 +365,30 @@ def runHistory (st : PrinterState) : List (Opts × SchemaD × Apps) → List Str
     let r := printSchema c.1 c.2.1 c.2.2 st
     r.1 :: runHistory r.2 rest
 
+/-! ### `schemaToDoc`: the definitions the printer writes, as a document (the by-name content of `to_string`) -/
+
+def deprDirs (r : Option String) : List DirApp :=
+  match r with | none => [] | some x => [{ name := "deprecated", args := [("reason", .str x)] }]
+
+def argToDef (s : SchemaD) (a : ArgD) : InputValDef :=
+  { name := a.name, desc := a.desc, type := a.type, default := if a.hasDefault then valueLit s valueFuel a.default a.type else none }
+
+def fieldToDef (s : SchemaD) (f : FieldD) : FieldDef :=
+  { name := f.name, desc := f.desc, args := f.args.map (argToDef s), type := f.type, dirs := deprDirs f.deprecated }
+
+def enumValToDef (v : EnumValD) : EnumValDef := { name := v.name, desc := v.desc, dirs := deprDirs v.deprecated }
+
+def typeToDef (s : SchemaD) (t : TypeD) : TypeDef :=
+  { kind := t.kind, name := t.name, desc := t.desc, interfaces := t.interfaces, fields := t.fields.map (fieldToDef s),
+    members := t.members, values := t.values.map enumValToDef, inputFields := t.inputFields.map (argToDef s) }
+
+def directiveToDef (s : SchemaD) (d : DirectiveD) : DirDef :=
+  { name := d.name, desc := d.desc, args := d.args.map (argToDef s), locations := d.locations }
+
+def schemaToDoc (s : SchemaD) : Doc :=
+  s.directives.map (fun d => .directive (directiveToDef s d)) ++ s.types.map (fun t => .type (typeToDef s t)) ++
+  [.schema { ops := (match s.query with | some q => [("query", q)] | none => []) ++
+                    (match s.mutation with | some q => [("mutation", q)] | none => []) ++
+                    (match s.subscription with | some q => [("subscription", q)] | none => []) }]
+
 end PyGql.SdlPrint
